@@ -330,8 +330,37 @@ def join_checks(tr, prog):
     return bad
 
 
+def action_counts(tr, prog):
+    """C06/C10: a task without retry / with-items dispatches its action once (per activation)"""
+    bad = []
+    sp = {t['name']: t for t in prog['tasks']}
+    cnt = {}
+    for a in tr.final['actions']:
+        cnt[a['task']] = cnt.get(a['task'], 0) + 1
+    for t in tr.final['tasks']:
+        s = sp.get(t['name'], {})
+        if s.get('retry') or s.get('with_items') is not None:
+            continue
+        if cnt.get(t['ord'], 0) > 1:
+            bad.append({'task': t['name'], 'actions': cnt[t['ord']]})
+    return bad
+
+
+_ID = None
+
+
+def scrub(x):
+    """ids inside messages (task_ex_id=..., action_ex_id=...) are not part of the outcome"""
+    global _ID
+    import re
+    if _ID is None:
+        _ID = re.compile(r'[0-9a-f]{8}-0000-4000-8000-[0-9a-f]{12}')
+    return json.loads(_ID.sub('ID', json.dumps(x)))
+
+
 def outcome(snap, root_ord=None):
     """The observable outcome of a run: (state, sorted task (name,state,published), output)."""
+    snap = scrub(snap)
     w = snap['wfs'][0]
     tasks = sorted([[t['name'], t['state'], t['published']] for t in snap['tasks'] if t['wf'] == w['ord']],
                    key=lambda x: json.dumps(x, sort_keys=True))
